@@ -87,3 +87,25 @@ pub assume_specification<T>[ <[T]>::split_last ](s: &[T]) -> (r: Option<(&T, &[T
     ensures
         s@.len() == 0 ==> r is None,
         s@.len() > 0 ==> r is Some && *r.unwrap().0 == s@[s@.len() - 1] && r.unwrap().1@ == s@.subrange(0, s@.len() - 1);
+
+pub open spec fn is_pow2_u64(x: u64) -> bool { x != 0 && (x & ((x - 1) as u64)) == 0 }
+
+//@ assume std::u64::is_power_of_two : std documentation: true iff self == 2^k for some k
+pub assume_specification[ u64::is_power_of_two ](x: u64) -> (r: bool)
+    ensures r == is_pow2_u64(x);
+
+/// a power of two equals 2^(its number of trailing zeros)   (proved from vstd's trailing_zeros axiom)
+pub proof fn lemma_pow2_tz(b: u64)
+    requires is_pow2_u64(b)
+    ensures vstd::std_specs::bits::u64_trailing_zeros(b) < 64,
+        b as nat == vstd::arithmetic::power2::pow2(vstd::std_specs::bits::u64_trailing_zeros(b) as nat)
+{
+    vstd::std_specs::bits::axiom_u64_trailing_zeros(b);
+    let t = vstd::std_specs::bits::u64_trailing_zeros(b);
+    let tt = t as u64;
+    assert(b == 1u64 << tt) by (bit_vector) requires tt < 64, (b >> tt) & 1u64 == 1u64, b & ((b - 1) as u64) == 0, b != 0;
+    vstd::arithmetic::power2::lemma2_to64();
+    vstd::arithmetic::power2::lemma_pow2_strictly_increases(t as nat, 64);
+    assert(1 * vstd::arithmetic::power2::pow2(t as nat) == vstd::arithmetic::power2::pow2(t as nat)) by (nonlinear_arith);
+    vstd::bits::lemma_u64_shl_is_mul(1u64, tt);
+}
